@@ -28,7 +28,7 @@ CONSTANTS
                     \* (DnssecDnsHandle::positive_validation_ttl / negative_validation_ttl)
     Deviation       \* "none", or one deliberate deviation of the machine from the required rules, to
                     \* show as a TLC counterexample that the rule is needed:
-                    \* "clampAfterCap" | "markGroup" | "signerZoneOf" | "xorKey" | "revokedSignsKeys"
+                    \* "clampAfterCap" | "markGroup" | "signerZoneOf" | "xorKey" | "revokedSignsKeys" | "indexAfterFilter"
 
 \* "addOtherClass": next to the genuine RRset a further record with the same owner and type
 \*     but another class arrives (a record of a different RRset, RFC 2181 5: no signature covers it)
@@ -41,6 +41,9 @@ CONSTANTS
 \*     (RFC 4034 6.3: the repetition does not count, the RRset presented has one more member)
 \* "twoSigs" / "swapSigs": two RRSIGs arrive, the genuine one and a non-verifying copy of it, the
 \*     genuine one first / second
+\* "junkSignerFirst" / "junkSignerLast": two RRSIGs arrive, the genuine one and one that cannot be
+\*     used at all (its Signer's Name is a sibling zone, not the owner or an ancestor of it; other
+\*     Original TTL / Expiration / Labels, garbage signature), the unusable one first / last
 \* "revokedAnchor": the zone key is still among the validator's trust anchors but is now published
 \*     with the REVOKE bit (RFC 5011; its key tag changes with the flag); it signs a DNSKEY RRset
 \*     that introduces a further key, the forger's.  RFC 5011 2.1: a revoked key MUST NOT be used
@@ -50,7 +53,7 @@ CONSTANTS
 AllRRV  == {"genuine", "ownerCase", "owner", "class", "type", "rdataBit", "rdataNameCase", "addRecord", "dropRecord",
             "addOtherClass", "addForgedTwice"}
 AllSIGV == {"genuine", "signerCase", "origTtl", "labelsUp", "labelsDown", "inc", "exp", "keyTag", "signer", "alg",
-            "sigBit", "typeCovered", "forged", "twoSigs", "swapSigs"}
+            "sigBit", "typeCovered", "forged", "twoSigs", "swapSigs", "junkSignerFirst", "junkSignerLast"}
 AllKEYV == {"genuine", "otherKey", "revoked", "notZoneKey", "wrongOwner", "wrongAlg", "unsupportedAlg", "childKey",
             "revokedAnchor"}
 
@@ -75,13 +78,13 @@ PropertyArgs == SingleVariantArgs \cup ForgedArgs
 \* the types that keep it
 RrSignedGenuine(v)  == v \in {"genuine", "ownerCase", "addOtherClass"} \/ (v = "rdataNameCase" /\ ~NameCaseSigned)
 \* records arrive with the RRset that are not members of it, or RRSIGs that do not verify
-HasStray(a)         == a.rr = "addOtherClass" \/ a.sig \in {"twoSigs", "swapSigs"}
+HasStray(a)         == a.rr = "addOtherClass" \/ a.sig \in {"twoSigs", "swapSigs", "junkSignerFirst", "junkSignerLast"}
 \* the RRset still has the owner, class and type the RRSIG belongs to
 RrBelongs(v)        == v \notin {"owner", "class", "type"}
 \* every signed field of the RRSIG RDATA and the signature are the genuine ones (the
 \* Signer's Name is signed in lower case)
 \* (with two RRSIGs: the genuine one is among them)
-SigSignedGenuine(v) == v \in {"genuine", "signerCase", "twoSigs", "swapSigs"}
+SigSignedGenuine(v) == v \in {"genuine", "signerCase", "twoSigs", "swapSigs", "junkSignerFirst", "junkSignerLast"}
 SigInc(v)     == IF v = "inc" THEN IncAlt ELSE Inc
 SigExp(v)     == IF v = "exp" THEN ExpAlt ELSE Exp
 SigOrigTtl(v) == IF v = "origTtl" THEN OrigTtlAlt ELSE OrigTtl
